@@ -45,6 +45,8 @@ func runC01(c *Ctx, r *Report) {
 	importRules(c, r, "C02", []string{"R-C02.7"}, "R-C01.14")
 	r.Doc("R-C01.15", "the clock of an entry a log holds is never written (adopted from C05: entry objects are shared by the replicas of a process, so a clock raised in place makes the in-memory replica linearise differently from one that loaded the same entries, and the entry stops verifying)")
 	importRules(c, r, "C05", []string{"R-C05.1"}, "R-C01.15")
+	r.Doc("R-C01.16", "a view is taken in one critical section (adopted from C13: a replica restored from a snapshot whose values are newer than its heads exposes other heads and values than the replica it was taken from)")
+	importRules(c, r, "C13", []string{"R-C13.12"}, "R-C01.16", 0)
 	r.Doc("R-C01.10", "entries are filed in the entry index under their own hash and in the predecessor index under their own predecessor links (a link index fed from references, or from another list, makes head filtering depend on merge order)")
 	indexKeys(c, r, "R-C01.10")
 	join := p.FuncI("", "IPFSLog", "Join")
